@@ -45,6 +45,7 @@ package main
 import (
 	"bytes"
 	"fmt"
+	"io"
 	"strings"
 	"time"
 
@@ -53,6 +54,7 @@ import (
 
 	"verif/mc"
 	"verif/model/t1fonts"
+	"verif/model/t1raw"
 )
 
 var formats = []type1.FileFormat{type1.FormatPFA, type1.FormatPFB, type1.FormatBinary, type1.FormatNoEExec}
@@ -127,6 +129,12 @@ func classify(src, got *type1.Font, d t1fonts.Diff) (key string, narrow bool) {
 	return "C09:" + d.Class, false
 }
 
+// sloppyFont says `/Encoding StandardEncoding def` and then stores into that array.
+var sloppyFont = t1raw.Build(t1raw.FontSpec{EncLenIV: 4,
+	Top:    "StandardEncoding 39 /quotesingle put StandardEncoding 65 /Alpha put StandardEncoding 66 /.notdef put\n",
+	Glyphs: map[string][]byte{".notdef": {139, 248, 136, 13, 14}, "A": {139, 248, 136, 13, 14}},
+	Order:  []string{".notdef", "A"}})
+
 func body(fams []t1fonts.Family, famIdx int) func(c *mc.Ctx, item int) mc.Verdict {
 	fam := fams[famIdx]
 	return func(c *mc.Ctx, item int) mc.Verdict {
@@ -151,7 +159,21 @@ func body(fams []t1fonts.Family, famIdx int) func(c *mc.Ctx, item int) mc.Verdic
 		if after, before := t1fonts.Dump(src), t1fonts.Dump(pristine); after != before {
 			return fail("C09:write-changed-the-font", "the font value differs after Write: "+after)
 		}
-		got, err := type1.Read(bytes.NewReader(buf.Bytes()))
+		// How the written bytes reach the reader, and what the process read before,
+		// are pure functions of the item: from the start of a seekable reader; from
+		// the middle of one (the font embedded in a larger file); after another font
+		// that stores into StandardEncoding in place has been read.
+		var rd io.Reader = bytes.NewReader(buf.Bytes())
+		switch item % 8 {
+		case 3:
+			header := []byte("container header 16")
+			rs := bytes.NewReader(append(append([]byte{}, header...), buf.Bytes()...))
+			rs.Seek(int64(len(header)), io.SeekStart)
+			rd = rs
+		case 5:
+			type1.Read(bytes.NewReader(sloppyFont))
+		}
+		got, err := type1.Read(rd)
 		c.Step()
 		if err != nil {
 			switch {
